@@ -154,6 +154,10 @@ def run_history(case):
                     if not captured:
                         decoded_ops.append(["dropped", via])
                     else:
+                        # the properties speak of the time a message is *received*: the model and the specification are
+                        # given that time, whatever the decoder wrote into _timestamp (a decoder that hands on a stale
+                        # timestamp then shows up as a tracker that forgets devices too early)
+                        captured[0] = [(k, Clock.now_value if str(k).lower() == "_timestamp" else v) for k, v in captured[0]]
                         decoded_ops.append([via, captured[0]])
                         for k, v in captured[0]:
                             if k.lower() == "location" and isinstance(v, str):
@@ -163,7 +167,7 @@ def run_history(case):
                 if log:
                     u, dst, src, comb = log[0]
                     note = [u, dst, SRC_CODE.get(src, 99), len(log)]
-                devs = [[u, us(d.valid_to), [[loc, us(vt)] for loc, vt in d._locations.items()]]  # noqa: SLF001
+                devs = [[u, us(d.valid_to), [[loc, us(vt)] for loc, vt in _location_expiries(d).items()]]
                         for u, d in tracker.devices.items()]
                 for _, _, locs in devs:
                     for loc, _ in locs:
@@ -173,6 +177,21 @@ def run_history(case):
     finally:
         loop.close()
     return {"ops": decoded_ops, "obs": obs, "ipver": {loc: _safe(ip_version_from_location, loc) for loc in sorted(seen_locs)}}
+
+
+def _location_expiries(dev):
+    """location -> expiry of one SsdpDevice.  The public API only shows the locations (`dev.locations`); the expiries
+    live in a private dict whose name is not part of the contract, so it is found by shape: the instance attribute that
+    is a dict with exactly the public locations as keys and datetimes as values."""
+    import datetime as _dt
+    keys = list(dev.locations)
+    priv = getattr(dev, "_locations", None)
+    if isinstance(priv, dict) and list(priv) == keys:
+        return priv
+    for v in vars(dev).values():
+        if isinstance(v, dict) and list(v) == keys and all(isinstance(x, _dt.datetime) for x in v.values()):
+            return v
+    raise RuntimeError("harness: cannot find the per-location expiry map of SsdpDevice (public `locations`: %r)" % keys)
 
 
 # ---------------------------------------------------------------------- printers
@@ -332,6 +351,32 @@ def gen_history(rng, depth, small=False, udns=UDNS):
             ops.append(["purge", t + rng.choice([0, 0, 1, -1, 5])])
         else:
             ops.append(gen_msg(rng, t, udns=udns, small=small))
+    return {"async": rng.random() < 0.3, "ops": ops}
+
+
+def gen_refresh_history(rng):
+    """One device re-announcing the same type and location again and again, each time well inside the max-age of the
+    previous sighting but more than one max-age after the one before it: a sighting has to refresh the expiry of a
+    location that is already known (otherwise the lazy purge drops it and the next message reads as a change)."""
+    u, typ, loc = rng.choice(UDNS[:3]), rng.choice(TYPES[:2]), rng.choice(GOOD_LOCS[:3])
+    m = rng.choice([5, 7, 30, 1800])
+    usn = u + ("" if typ.startswith("uuid:") else "::" + typ)
+    addr = rng.choice([["192.168.1.10", 1900], ["fe80::1", 1900, 0, 3]])
+    same_bytes = rng.random() < 0.4          # byte-identical repeats (what a decode cache keys on)
+    t, ops = 0, []
+    for i in range(rng.randint(3, 7)):
+        via = rng.choice(["srch", "adv"]) if not same_bytes else "adv"
+        if via == "srch":
+            start, hs = "HTTP/1.1 200 OK", [["CACHE-CONTROL", f"max-age={m}"], ["ST", typ], ["USN", usn], ["LOCATION", loc], ["EXT", ""]]
+        else:
+            start, hs = "NOTIFY * HTTP/1.1", [["HOST", "239.255.255.250:1900"], ["CACHE-CONTROL", f"max-age={m}"], ["NT", typ],
+                                              ["NTS", "ssdp:alive"], ["USN", usn], ["LOCATION", loc]]
+        if not same_bytes and rng.random() < 0.3:
+            hs.append(["BOOTID.UPNP.ORG", str(rng.choice([1, 1, 2]))])
+        ops.append(["msg", via, start, hs, t, addr])
+        if rng.random() < 0.15:
+            ops.append(["purge", t + rng.choice([0, 1, m - 1])])
+        t += rng.choice([m - 1, m - 2, m // 2 + 1, m])
     return {"async": rng.random() < 0.3, "ops": ops}
 
 
